@@ -257,7 +257,7 @@ def pep_friendly(vpattern):
 
 def gen_project(rng, mode="plain", syntaxes=None, allow_mixed=True, max_files=4, family=None, vcs="maybe",
                 allow_odd_paths=True, allow_glob=True, pep_any=False, force_pep=False, zero_bid=False, legacy=False, clock_patterns=True,
-                allow_symlinks=True):
+                allow_symlinks=True, invalid_utf8=False, twin_pair=False):
     while True:
         if legacy:
             pat = {"pattern": rng.choice(gp.LEGACY_PATTERNS), "family": "legacy", "unit": None}
@@ -404,6 +404,35 @@ def gen_project(rng, mode="plain", syntaxes=None, allow_mixed=True, max_files=4,
                     fb["lines"][-1]["end"] = sep
                 fb["lines"].append({"segs": [unescape(pre), {"slot": region2, "pat": idx}, unescape(suf)], "end": end})
                 fb["twin_context"] = True
+    has_twin_pair = False
+    if twin_pair and pep_ok and not legacy and pep_friendly(vpattern) and rng.random() < 0.12:
+        # the pair `bumpver init` writes for setup.py: the same literal context around {version} and around {pep440_version}
+        # (in this order), one line for each.  While the two spellings differ each pattern finds its own line; once they
+        # coincide (a final release of a prefix-less pattern) the second pattern is shadowed on both lines and bumpver
+        # refuses the configuration ("possible greedy pattern")
+        cand = [x for x in files if not x.get("bare") and not x.get("glob_group") and not x.get("twin_context")]
+        if cand:
+            f = rng.choice(cand)
+            m = "@k%d" % marker
+            marker += 1
+            pre, suf = m + ' = "', '"'
+            sep = {"lf": "\n", "crlf": "\r\n", "cr": "\r", "mixed": "\n"}[f["regime"]]
+            if f["lines"] and f["lines"][-1]["end"] == "":
+                f["lines"][-1]["end"] = sep
+            i1, i2 = len(f["patterns"]), len(f["patterns"]) + 1
+            f["patterns"] = f["patterns"] + [pre + "{version}" + suf, pre + "{pep440_version}" + suf]
+            f["lines"].append({"segs": [pre, {"slot": "{version}", "pat": i1}, suf], "end": sep})
+            f["lines"].append({"segs": [pre, {"slot": "{pep440_version}", "pat": i2}, suf], "end": sep})
+            has_twin_pair = True
+    bad_bytes = False
+    if invalid_utf8 and rng.random() < 0.12:
+        # a byte that is not valid UTF-8 (a latin-1 name in a licence header), several lines away from every occurrence;
+        # bumpver refuses such a file - dry run and real run alike.  Written here as a lone surrogate (surrogateescape).
+        f = rng.choice([x for x in files if not x.get("overlap")])
+        sep = {"lf": "\n", "crlf": "\r\n", "cr": "\r", "mixed": "\n"}[f["regime"]]
+        head = [{"segs": ["(c) Jos\udce9 M\udcfcller"], "end": sep}] + [{"segs": [filler(rng, "plain", False)], "end": sep} for _ in range(5)]
+        f["lines"] = head + f["lines"]
+        bad_bytes = True
     # config entries: explicit path, a glob that matches exactly this file, or the patterns split over two entries
     entries = []
     if any(f.get("glob_group") for f in files):
@@ -504,6 +533,6 @@ def gen_project(rng, mode="plain", syntaxes=None, allow_mixed=True, max_files=4,
         name = rng.choice(["notes.txt", "src/pkg/other.py", "LICENSE", "data.bin"])
         extra[name] = (filler(rng, mode, True, 30) + "\n" + vtext + "\n").encode("utf-8")
     return {"version_pattern": vpattern, "state": state, "epoch": epoch.isoformat(), "syntax": syntax, "cfg_glob": cfg_glob,
-            "clock_slots": clock_slots,
+            "clock_slots": clock_slots, "invalid_utf8": bad_bytes, "twin_pair": has_twin_pair,
             "style": style, "cfg": cfg, "cfg_regime": cfg_regime, "files": files, "extra": {k: v.decode("utf-8") for k, v in extra.items()},
             "vcs": vcs_spec, "pep_ok": pep_ok, "unit": pat["unit"], "family": pat["family"]}
